@@ -352,7 +352,7 @@ class Check:
         skipped_other, skipped_filter = 0, 0
         for v in res.get("violations", []):
             sig = v.get("signature", "")
-            if keep is not None and not keep(v):
+            if keep is not None and not keep(v) and match_known(sig, self.known, tool) is None:
                 skipped_filter += 1
                 continue
             if match_known(sig, self.known, tool) is None and match_known(sig, allknown, tool) is not None:
